@@ -1,10 +1,125 @@
-(** C04 - no input file can make the reader memory-unsafe, hang or leak (bounds / termination logic).
-    This file only restates lemmas proved in Reader/FooterProofs.v and Reader/RobustProofs.v. *)
+(** C04 - no input file can make the reader memory-unsafe, hang or leak: the bounds / termination LOGIC.
+    This file only restates lemmas proved in Reader/FooterProofs.v and Reader/RobustProofs.v about the models
+    Reader/FooterModel.v (open decision) and Reader/PageBoundsModel.v (index checks, page loads, view /
+    dictionary / copy-out sizes, page walk, error records).  Which checks the C code makes, the header
+    window and the limits are regenerated from the sources (Gen/Robust_gen.v, Gen/Consts_gen.v).
+
+    PARTIAL with respect to the property: heap discipline of the real process (leaks, double frees, use
+    after free, lifetime of zero-copy views), stack depth of the Thrift parser and the decoders'
+    own loops are not in these models; they are observed (ASan/UBSan/LSan, CPU and wall-clock limits) by
+    checks/C04.py, and the Thrift parser / decoders are other properties' models (C13, C08).  The
+    premises about the two Thrift parsers are explicit hypotheses of the statements below. *)
 From Coq Require Import NArith ZArith List.
-From Carquet Require Import Base.Res Gen.Enums_gen Reader.FooterModel Reader.FooterProofs.
+From Carquet Require Import Base.Res Gen.Enums_gen Gen.Consts_gen Reader.FooterModel Reader.FooterProofs
+  Reader.PageBoundsModel Reader.RobustProofs.
 Import ListNotations.
+Local Open Scope Z_scope.
 
 (** The open decision never reads outside the file: for every byte string and every open path. *)
 Theorem open_decision_in_bounds : forall m f, open_stage m f <> StFault.
 Proof. exact open_stage_no_fault. Qed.
 Print Assumptions open_decision_in_bounds.
+
+(** open: an error with a non-OK code, or metadata whose counts are within the CARQUET_MAX_* limits and
+    whose leaf map points into the schema - given that the footer parser (a premise: C13) respects its
+    limits, does not fault and does not fail with CARQUET_OK. *)
+Theorem open_safe : forall (parse : list N -> res file_meta),
+  (forall bs m, parse bs = Ok m -> within_limits m) ->
+  (forall bs ft, parse bs <> Fault ft) ->
+  (forall bs, parse bs <> Err 0) ->
+  forall mode f,
+    (exists c, open file_meta parse mode f = Err c /\ c <> 0) \/
+    (exists m, open file_meta parse mode f = Ok m /\ within_limits m).
+Proof. exact RobustProofs.open_safe. Qed.
+Print Assumptions open_safe.
+
+(** Out-of-range row-group / column indices (any C ints) are reported as errors. *)
+Theorem get_column_safe : forall m rg col,
+  rg < 0 \/ Z.of_nat (length (fm_row_groups m)) <= rg \/ col < 0 \/ Z.of_nat (length (fm_leaves m)) <= col ->
+  exists c, get_column current_pchecks m rg col = Err c /\ c <> 0.
+Proof. exact get_column_index_error. Qed.
+Print Assumptions get_column_safe.
+
+(** ... and for any indices get_column stays inside the metadata arrays. *)
+Theorem get_column_in_bounds : forall m rg col,
+  within_limits m -> forall ft, get_column current_pchecks m rg col <> Fault ft.
+Proof. exact get_column_no_fault. Qed.
+Print Assumptions get_column_in_bounds.
+
+(** Every range of the file a page load reads lies inside the file, or the load reports an error: for all
+    files, offsets, headers, both I/O paths (mapped = mmap and buffer; stdio), dictionary and data pages. *)
+Theorem page_load_in_bounds : forall (parse_hdr : list N -> hdr_result),
+  (forall bs h hs, parse_hdr bs = HdrOk h hs -> (hs <= length bs)%nat) ->
+  (forall bs h hs, parse_hdr bs = HdrOk h hs -> -2147483648 <= ph_csize h < 2147483648) ->
+  forall p k f off,
+    (exists c, load parse_hdr current_pchecks p k f off = Err c) \/
+    (exists l, load parse_hdr current_pchecks p k f off = Ok l /\
+       Forall (in_file (Z.of_nat (length f))) (ld_reads l) /\ in_file (Z.of_nat (length f)) (ld_body l) /\
+       0 <= ld_hs l /\ r_off (ld_body l) = off + ld_hs l /\ r_len (ld_body l) = ph_csize (ld_header l) /\
+       0 <= off < Z.of_nat (length f)).
+Proof. exact RobustProofs.page_load_in_bounds. Qed.
+Print Assumptions page_load_in_bounds.
+
+(** The zero-copy view handed to read_batch lies inside the page body. *)
+Theorem zero_copy_view_in_bounds : forall r l,
+  0 <= r_len (ld_body l) ->
+  (exists c, zero_copy_view current_pchecks r l = Err c) \/
+  (exists v, zero_copy_view current_pchecks r l = Ok v /\
+     r_off v = r_off (ld_body l) /\ 0 <= r_len v <= r_len (ld_body l)).
+Proof. exact zero_copy_view_in_body. Qed.
+Print Assumptions zero_copy_view_in_bounds.
+
+(** The fixed-width dictionary copy stays inside the dictionary page. *)
+Theorem dictionary_copy_in_bounds : forall r dn ps,
+  0 <= ps ->
+  (exists c, dictionary_copy current_pchecks r dn ps = Err c) \/
+  (exists b, dictionary_copy current_pchecks r dn ps = Ok b /\ 0 <= b <= ps).
+Proof. exact RobustProofs.dictionary_copy_in_bounds. Qed.
+Print Assumptions dictionary_copy_in_bounds.
+
+(** read_batch writes no more into the caller's buffer than a caller who sized it from the schema made room for. *)
+Theorem decode_writes_in_bounds : forall m rg col r pv vr mv,
+  get_column current_pchecks m rg col = Ok r -> 0 <= mv ->
+  exists w, copy_out r pv vr mv = Ok w /\ 0 <= w <= mv * value_size (cr_schema_type r) (cr_type_length r).
+Proof. exact RobustProofs.decode_writes_in_bounds. Qed.
+Print Assumptions decode_writes_in_bounds.
+
+(** Walking the pages of a chunk takes at most (file size + 1) page loads whatever the metadata and the
+    page headers say (worst case: the declared value count never runs out). *)
+Theorem read_terminates_linear : forall (parse_hdr : list N -> hdr_result),
+  (forall bs h hs, parse_hdr bs = HdrOk h hs -> (hs <= length bs)%nat) ->
+  (forall bs h hs, parse_hdr bs = HdrOk h hs -> -2147483648 <= ph_csize h < 2147483648) ->
+  (forall bs h hs, parse_hdr bs = HdrOk h hs -> (1 <= hs)%nat) ->
+  forall p f off, exists k, walk parse_hdr current_pchecks (length f + 1) p f off 0 = Ok k /\ (k <= length f + 1)%nat.
+Proof. exact RobustProofs.read_terminates_linear. Qed.
+Print Assumptions read_terminates_linear.
+
+(** An error record carries a non-OK code and a NUL-terminated message inside its array. *)
+Theorem error_has_code_and_nul_message : forall code text,
+  code <> 0 ->
+  e_code (error_set code text) <> 0 /\
+  (length (e_message (error_set code text)) <= N.to_nat Robust_CARQUET_ERROR_MESSAGE_MAX)%nat /\
+  last (e_message (error_set code text)) 1%N = 0%N /\ In 0%N (e_message (error_set code text)).
+Proof. exact RobustProofs.error_has_code_and_nul_message. Qed.
+Print Assumptions error_has_code_and_nul_message.
+
+(** The pinned tree violated the bounds theorems (DESIGN F21-F24; replays in corpus/C04). *)
+Theorem page_load_in_bounds_refuted_on_pinned_tree :
+  exists parse_hdr f off, load parse_hdr pinned_pchecks Mapped DataPage f off = Fault OobRead.
+Proof. exact page_load_in_bounds_refuted_pinned_size. Qed.
+Print Assumptions page_load_in_bounds_refuted_on_pinned_tree.
+
+Theorem zero_copy_view_refuted_on_pinned_tree :
+  exists r l v, zero_copy_view pinned_pchecks r l = Ok v /\ r_len (ld_body l) < r_len v.
+Proof. exact zero_copy_view_refuted_pinned. Qed.
+Print Assumptions zero_copy_view_refuted_on_pinned_tree.
+
+Theorem dictionary_copy_refuted_on_pinned_tree :
+  exists r dn ps, dictionary_copy pinned_pchecks r dn ps = Fault OobRead.
+Proof. exact dictionary_copy_refuted_pinned. Qed.
+Print Assumptions dictionary_copy_refuted_on_pinned_tree.
+
+Theorem decode_writes_in_bounds_refuted_on_pinned_tree :
+  exists m rg col r mv, get_column pinned_pchecks m rg col = Ok r /\ copy_out r 10 0 mv = Fault OobWrite.
+Proof. exact decode_writes_in_bounds_refuted_pinned. Qed.
+Print Assumptions decode_writes_in_bounds_refuted_on_pinned_tree.
